@@ -219,18 +219,27 @@ def d8_3(ctx):
     if fn is None:
         ctx.undecided(f"{DT}:DataType._stream_read", base.node, "anchor vanished")
         return
-    facts, probs = _stream_read_guards(ctx, fn)
-    roles = {"empty": False, "short": False}
-    for p in probs:
-        if len(p) == 2:
-            ctx.undecided(ckey(fn), p[0], p[1])
-            return
-        node, role, why = p
-        roles[role] = True
-        ctx.violation(ckey(fn, role), node, why, **(facts or {}))
-    for role, bad in roles.items():
-        if not bad:
-            ctx.ok(ckey(fn, role), fn.node, f"{role}-read guard dominates every return of the data", **(facts or {}))
+    # folded on witness streams: enough bytes -> exactly `size` bytes and the stream advanced by `size`; nothing left -> BufferEmptyError;
+    # fewer than `size` left -> DataError (an earlier form located the two guards by their shape and alarmed when they were inverted)
+    from ..miniinterp import Obj, Stream, run_function
+
+    node = fn.node if hasattr(fn, "node") else fn
+    ps = [a.arg for a in node.args.args]
+    for label, data, skip, size, want in (("4 of 4 bytes", b"abcd", 0, 4, ("return", b"abcd")), ("2 of 4 bytes", b"abcd", 0, 2, ("return", b"ab")), ("the last 2 of 4 bytes", b"abcd", 2, 2, ("return", b"cd")), ("1 of 1 byte", b"z", 0, 1, ("return", b"z")),
+                                          ("an empty stream", b"", 0, 2, ("raise", "BufferEmptyError")), ("a stream read to its end", b"abcd", 4, 1, ("raise", "BufferEmptyError")), ("1 byte left of 2", b"a", 0, 2, ("raise", "DataError")),
+                                          ("3 bytes left of 4", b"abcd", 1, 4, ("raise", "DataError")), ("7 bytes left of 8", b"abcdefg", 0, 8, ("raise", "DataError"))):
+        st = Stream(data)
+        st.read(skip)
+        kind, res = run_function(ctx, base.module, node, {ps[0]: Obj(_ci=base, _is_class=True), ps[1]: st, ps[2]: size}, deep=False)
+        role = "empty" if want == ("raise", "BufferEmptyError") else "short" if want[0] == "raise" else "data"
+        key = ckey(fn, f"{role}:{label}")
+        if kind == "unknown":
+            ctx.undecided(key, node, f"_stream_read not foldable on {label}: {res}")
+            continue
+        res = bytes(res) if isinstance(res, bytearray) else res
+        ok = (kind, res) == want and (want[0] == "raise" or st.pos == skip + size)
+        ctx.check(ok, key, node, f"{label}: {want[0]} {want[1]!r}", f"_stream_read of {size} byte(s) from {label} gives {kind} {res!r} (stream at {st.pos}); expected {want[0]} {want[1]!r}: "
+                  + ("an exhausted buffer must be BufferEmptyError (it ends unbounded arrays)" if role == "empty" else "a fixed-width value must not be produced from fewer bytes than its width" if role == "short" else "the bytes asked for"))
     # raw reads inside decoders of the anchored files
     for c in datatype_classes(ctx):
         if c.module.name not in (DT, CT):
